@@ -2,6 +2,7 @@ package checks
 
 import (
 	"bytes"
+	"crypto/ed25519"
 	"encoding/csv"
 	"encoding/hex"
 	"encoding/json"
@@ -419,6 +420,31 @@ func c20(tier string, args []string) int {
 					name string
 					log  []storage.Message
 				}{"later-proposal-in-0.1.4-dump/", "a 0.1.4-style signing proposal of participant 0 after the key generation and, later, the opening proposal of a second round (never confirmed)", append(append(keygen, old), later)})
+			}
+			// the same on a board on which the round was reinitialised once already (new
+			// communication keys), signed with the new keys, and then the second round was proposed
+			{
+				var keygen []storage.Message
+				for _, m := range lastOM.Log {
+					if m.Event == "event_signing_start" {
+						break
+					}
+					keygen = append(keygen, m)
+				}
+				keys1 := map[string][]byte{}
+				for i, name := range lastOM.Names {
+					keys1[name] = freshKey(fmt.Sprintf("first-reinit-%d", i)).Public().(ed25519.PublicKey)
+				}
+				if re1, err := types.GenerateReDKGMessage(keygen, keys1); err == nil {
+					reinit1 := storage.Message{DkgRoundID: lastOM.Round, Event: string(types.ReinitDKG), Data: world.MustJSON(re1), SenderAddr: lastOM.Names[0]}
+					prop := requests.SigningBatchProposalStartRequest{BatchID: "after-first-reinit", ParticipantId: 0, CreatedAt: world.T0, SigningTasks: []requests.SigningTask{{MessageID: "m", File: "f", Payload: []byte("signed after the first reinitialisation")}}}
+					start := world.SignedMessage(lastOM.Round, "event_signing_start", world.MustJSON(prop), lastOM.Names[0], freshKey("first-reinit-0"), "")
+					junks = append(junks, struct {
+						key  string
+						name string
+						log  []storage.Message
+					}{"later-proposal-after-an-earlier-reinit/", "an earlier reinitialisation of the round (new keys), a signing proposal signed with the new key and, later, the opening proposal of a second round (never confirmed)", append(append(keygen, reinit1, start), later)})
+				}
 			}
 			for k, m := range lastOM.Log {
 				if m.Event == "event_sig_proposal_confirm_by_participant" && m.SenderAddr == lastOM.Names[0] {
